@@ -124,9 +124,31 @@ def params(sess, suite):
     sess.case("dup|%s" % suite)
 
 
+def u16_boundaries(sess, suite):
+    """group sizes and identifier-list lengths at the u16 boundary (truncating casts, inclusive ranges)"""
+    fld = Fld(suite)
+    # the largest group: max_signers = 65535 with default identifiers
+    req = "dealer %s n=65535 t=2 ids=default tape=%s" % (suite, sess.tape(64))
+    r = sess.call(req, EXACT, "dealer-65535", model=sess.tier != "quick")
+    if sess.oracle(r.ok, "dealer refused / crashed on the valid group size n=65535 (%s)" % r.raw[:80], [req]):
+        shares = recs(r["shares"])
+        sess.oracle(len(shares) == 65535 and ss_fields(shares[-1])["id"] == fld.enc(65535), "n=65535: wrong number of shares / last identifier", [req])
+        k = sess.call("keypkg %s ss=%s" % (suite, shares[-1]), EXACT, "keypkg")
+        sess.oracle(k.ok, "n=65535: last share does not verify", [req])
+    sess.case("u16|n=65535|" + suite)
+    # a custom identifier list whose length is congruent to max_signers modulo 2^16
+    ids = ",".join(fld.enc(v) for v in range(1, 65536 + 3 + 1))
+    req = "dealer %s n=3 t=2 ids=%s tape=%s" % (suite, ids, sess.tape(64))
+    r = sess.call(req, EXACT, "dealer-count-mod-2^16")
+    sess.oracle(r.err == "IncorrectNumberOfIdentifiers", "identifier list of length n+65536 not refused (%s)" % r.raw[:80], [req[:200] + "...(65539 identifiers 1..65539)"])
+    sess.case("u16|len=n+65536|" + suite)
+    sess.count("u16-boundaries")
+
+
 def generate(sess):
     rng = sess.rng
     thorough = sess.tier != "quick"
+    u16_boundaries(sess, "toy31")
     for suite in TOY_SUITES:
         for n in range(2, 9 if thorough else 7):
             for t in range(2, n + 1):
